@@ -147,12 +147,13 @@ func (j *c06job) runSeq() {
 			}
 			j.stats["reused_solver_calls"]++
 			j.stats["verdict_reused_"+verdictStr(r.Result)]++
-			one := &c06job{kind: "dfpn", root: p, g: j.seqG[i], entries: j.entries, attacker: j.attacker, stats: j.stats}
+			one := &c06job{kind: "dfpn", root: p, g: j.seqG[i], entries: j.entries, attacker: j.attacker, stats: j.stats, work: st.Work}
 			one.judge(fmt.Sprintf("%s (call %d of the sequence)", in, i+1), r, att, l1)
 			for _, f := range one.out {
 				// the same position on a fresh solver
 				fresh := &c06job{kind: "dfpn", root: p, g: j.seqG[i], entries: j.entries, attacker: j.attacker, stats: map[string]int64{}}
-				fr, _ := prove.NewDFPN(&prove.DFPNConfig{Attacker: j.attacker, TableMem: int64(j.entries) * c06EntrySize}).Prove(p)
+				fr, fst := prove.NewDFPN(&prove.DFPNConfig{Attacker: j.attacker, TableMem: int64(j.entries) * c06EntrySize}).Prove(p)
+				fresh.work = fst.Work
 				fresh.judge("fresh", fr, att, "")
 				if len(fresh.out) == 0 {
 					parts := strings.SplitN(f, " | ", 2)
@@ -746,6 +747,7 @@ func runC06(c *ctx) {
 	// one solver for a stream of positions: mixed sides to move and mixed board sizes
 	pool := [][]*tak.Position{}
 	poolG := [][]*retroGraph{}
+	poolOneOff := map[int]bool{}
 	for i, s := range specs {
 		if i >= 6 {
 			break
@@ -772,6 +774,7 @@ func runC06(c *ctx) {
 			}
 		}
 		if len(rs) > 0 {
+			poolOneOff[len(pool)] = true
 			pool = append(pool, rs)
 			poolG = append(poolG, gs)
 		}
@@ -786,16 +789,35 @@ func runC06(c *ctx) {
 		case 1:
 			j.attacker = tak.Black
 		}
+		// One game per board size within a stream: the table is keyed by Position.Hash, which covers the board and the
+		// side to move but neither the reserves nor the tie rule, so positions of DIFFERENT games on the same board size
+		// must not share a solver (the solver clears its table only when the size or the attacker changes).
+		famOfSize := map[int]int{}
+		oneOff := map[int]*tak.Position{} // families whose members each have their own reserves: one member per stream
 		last := -1
 		for x := 0; x < n; x++ {
 			pi := c.r.Intn(len(pool))
 			if pi == last {
 				pi = (pi + 1 + c.r.Intn(len(pool)-1)) % len(pool) // neighbours in the stream come from different families
 			}
-			last = pi
 			ri := c.r.Intn(len(pool[pi]))
-			j.seq = append(j.seq, pool[pi][ri])
+			p := pool[pi][ri]
+			if f, ok := famOfSize[p.Size()]; ok && f != pi {
+				continue
+			}
+			if poolOneOff[pi] {
+				if q, ok := oneOff[pi]; ok && q != p {
+					continue
+				}
+				oneOff[pi] = p
+			}
+			famOfSize[p.Size()] = pi
+			last = pi
+			j.seq = append(j.seq, p)
 			j.seqG = append(j.seqG, poolG[pi][ri])
+		}
+		if len(j.seq) < 2 {
+			continue
 		}
 		j.root = j.seq[0]
 		jobs = append(jobs, j)
